@@ -553,6 +553,7 @@ func init() {
 		MaxSim: 6 * time.Hour,
 		Rule: "plans = (one listener kind of tcp/tcp+tls/ws/wss/in-process, server and client buffer sizes incl. 0, in-process queue size, encryption selector, 0-3 sender tasks per direction each with 1-40 envelopes of all four kinds from the rich generator, " +
 			"handler/consumer delays on both sides, client consuming through an EnvelopeMux or four stream readers, optionally two handlers per kind with overlapping predicates on both sides, benign link faults: fragmentation, latency, stalls (in a fifth of the runs longer than the 5 s I/O poll, behind a 16-512 byte send buffer), bounded send buffer; handler delays up to 6 s; in a third of the runs one side first gives up on a command of its own and the late response to it travels with the other traffic); " +
+			"or answers it at the very instant the abandoned command's context expires; one run in 16 carries envelopes of up to 20 kB; " +
 			"oracle over the quiescent history: delivered = sent-ok as multisets, exactly once, content equal, per (sender task, kind) order; the session nobody ended is still established at the end; non-trivial = session established and still established at the end; distinct = distinct (plan JSON, event-log hash)",
 	})
 }
